@@ -200,7 +200,12 @@ where
       max_samples_per_instance,
     }) = self.qos.resource_limits
     {
-      Some(max_samples_per_instance)
+      // A negative value is LENGTH_UNLIMITED, i.e. no limit
+      if max_samples_per_instance >= 0 {
+        Some(max_samples_per_instance)
+      } else {
+        None
+      }
     } else {
       None
     };
@@ -377,7 +382,11 @@ where
   ) {
     for (inst, gen) in instance_generations {
       if let Some(imd) = self.instance_map.get_mut(inst) {
-        imd.last_generation_accessed = *gen;
+        // Only ever move forward: an access that touches only older generations
+        // must not make an already accessed generation look NEW again.
+        if gen.total() > imd.last_generation_accessed.total() {
+          imd.last_generation_accessed = *gen;
+        }
       } else {
         panic!("Instance disappeared!?!!1!");
       }
